@@ -96,11 +96,18 @@ type World struct {
 	Times   []int64 // timestamps (unix ns, simulated) at which graph-affecting ops ran
 	Sim     *verifsync.Sim
 	turbo   bool // a turbo refine (VImportCommit) may still be running
+	qhist   map[string]*qHist
 
 	evMu   sync.Mutex
 	Events []EvRec // disk events of the current op window
 	evHook func(ev *verifos.Event) verifos.Action
 	Outside []string // fs calls outside the data dir (C19)
+}
+
+// qHist tracks the trained int8 ranges an index has had during a run.
+type qHist struct {
+	min, max float32
+	recodes  int
 }
 
 // EvRec is a recorded disk event (without payload).
